@@ -8,8 +8,8 @@ Model: `Cell2v/Model/Service.lean` (`doRequestEx`, `handleResponse`,
 requests, any interleaving of replies / error replies / duplicates / late and
 unknown replies / expiry scans / clock advances / other issues, any behaviour
 of the completion callbacks (the `issue … ret` ops between a `cb` event and its
-`ret`), any map-iteration order of the scan (`tick order`), any wrap bound `M`
-and allocator start `n0`.
+`ret`, or `panic` instead of `ret` inside an expiry scan), any map-iteration
+order of the scan (`tick order`), any wrap bound `M` and allocator start `n0`.
 
 Id guard.  Ids wrap at `M`, so "that very request" is only well defined while
 an id is not re-allocated during the life of the entry stored under it.  The
@@ -60,7 +60,7 @@ theorem cb_is_right_reply (M n0 : Nat) (ops : List Op)
     obtain ⟨_, hb⟩ := free_iff.1 hfree
     have h0 := hwf.idle hb
     obtain ⟨t0, _, hiss⟩ := h0.c.issuedP id w hm
-    exact ⟨p, w, rfl, rfl, hfree, hm, rfl, hcb, rfl, by simpa using h0.b.cbPend id w hm, t0, hiss⟩
+    exact ⟨p, w, rfl, rfl, hfree, hm, rfl, hcb, rfl, h0.b.cbPend id w hm, t0, hiss⟩
 
 /-- **timeout only after the deadline**: every timeout completion in the history
 belongs to a request issued (under that id) more than 30000 ms earlier, and it is
@@ -95,29 +95,22 @@ theorem late_dup_unknown_dropped (s : State) (id : Nat) (p : Payload) (hfree : f
     step s (.response id p) = { s with log := .dropped id :: s.log } :=
   response_miss hfree (find_none_iff.2 hmiss) p
 
-/-- … and after an instance has been completed it is not in the table any more
-(so a later or duplicate response under its id is a miss, or — only after a
-wrap — meets a different, newer instance). -/
+/-- … and an instance whose callback has been invoked — normally or panicking — is
+not in the table any more, at any moment (the entry is removed *before* the
+callback runs): a later or duplicate response under its id is a miss, or — only
+after a wrap — meets a different, newer instance; the expiry scan cannot meet it again. -/
 theorem completed_not_pending (M n0 : Nat) (ops : List Op)
-    (hg : (run (init M n0) ops).collided = false) (hfree : free (run (init M n0) ops) = true)
+    (hg : (run (init M n0) ops).collided = false)
     (i id : Nat) (o : Outcome) (t : Nat) (h : Ev.cb i id o t ∈ (run (init M n0) ops).log) :
     (∀ id' w, (id', w) ∈ (run (init M n0) ops).pending → w.inst ≠ i) ∧
     Ev.done i id ∈ (run (init M n0) ops).log := by
   have hwf := run_WF ops _ (init_WF M n0) hg
-  obtain ⟨_, hb⟩ := free_iff.1 hfree
-  have h0 := hwf.idle hb
   have hc := cb_mem_count h
-  have hnp : ∀ id' w, (id', w) ∈ (run (init M n0) ops).pending → w.inst ≠ i := by
-    intro id' w hm e
-    have := h0.b.cbPend id' w hm
-    simp at this
-    rw [e] at this
-    omega
-  refine ⟨hnp, ?_⟩
-  obtain ⟨t0, hiss, _⟩ := h0.c.cbEv i id o t h
-  rcases h0.d.tracked i id t0 hiss with ⟨w, hw, hi⟩ | hd
-  · exact absurd hi (hnp id w hw)
-  · exact hd
+  refine ⟨?_, hwf.f.cbDone i id o t h⟩
+  intro id' w hm e
+  have := hwf.b.cbPend id' w hm
+  rw [e] at this
+  omega
 
 /-- **no residue**: at any time the table holds exactly the instances that were
 issued as requests and not removed since. -/
@@ -165,17 +158,17 @@ theorem armed_while_pending (M n0 : Nat) (ops : List Op) (hg : (run (init M n0) 
 
 /-- **a scan completes what is due**: in a reachable state at rest with the timer
 armed, take any entry whose deadline has passed.  Run the scan (`tick`, any map
-order) and then anything at all (`more`: whatever the callbacks do and return).
-As soon as the goroutine is at rest again, that entry's callback has been invoked
-with the timeout (no callback: the entry has been removed), and the entry is gone.
-With `armed_while_pending` and the fairness of the 1 s timer (C14 / runtime,
-assumed) this is the lower bound of "exactly once". -/
+order) and then anything at all in which no callback panics (`more`: whatever the
+callbacks do and return).  As soon as the goroutine is at rest again, that entry's
+callback has been invoked with the timeout (no callback: nothing to call), the
+entry has been removed and is gone.  With `armed_while_pending` and the fairness
+of the 1 s timer (C14 / runtime, assumed) this is the lower bound of "exactly once". -/
 theorem tick_completes_due (M n0 : Nat) (ops : List Op)
     (hg : (run (init M n0) ops).collided = false)
     (hfree : free (run (init M n0) ops) = true) (harm : (run (init M n0) ops).armed = true)
     (id : Nat) (w : Wait) (hm : (id, w) ∈ (run (init M n0) ops).pending)
     (hdue : w.deadline < (run (init M n0) ops).now)
-    (order : List Nat) (more : List Op)
+    (order : List Nat) (more : List Op) (hnp : ∀ op, op ∈ more → op ≠ .panic)
     (hg' : (run (init M n0) (ops ++ .tick order :: more)).collided = false)
     (hrest : free (run (init M n0) (ops ++ .tick order :: more)) = true) :
     (w.hasCb = true → ∃ t, Ev.cb w.inst id .timeout t ∈ (run (init M n0) (ops ++ .tick order :: more)).log) ∧
@@ -186,31 +179,53 @@ theorem tick_completes_due (M n0 : Nat) (ops : List Op)
   have hc1 := not_collided_of_run hg'
   have hp := tick_progress hwf hfree harm hm hdue order hc1
   have hwf1 := step_WF hwf (.tick order) hc1
-  have hfin := run_progress more _ id w hwf1 hp hg'
+  have hfin := run_progress more _ id w hwf1 hnp hp hg'
   have hwf2 := run_WF more _ hwf1 hg'
   obtain ⟨_, hb⟩ := free_iff.1 hrest
-  have h0 := hwf2.idle hb
   rcases hfin with hh | ⟨cur, rest, hb', _⟩
-  · -- handled: derive `done` and absence from the invariant
-    obtain ⟨t0, _, hiss⟩ := hwf.c.issuedP id w hm
-    have hiss2 : Ev.issued w.inst id t0 ∈ (run (step (run (init M n0) ops) (.tick order)) more).log :=
-      run_log_mono more _ _ (step_log_mono _ hiss)
-    have hdone : Ev.done w.inst id ∈ (run (step (run (init M n0) ops) (.tick order)) more).log := by
-      cases hcb : w.hasCb with
-      | false => exact hh.2 hcb
-      | true =>
-        obtain ⟨t, ht⟩ := hh.1 hcb
-        have hc := cb_mem_count ht
-        rcases h0.d.tracked _ id t0 hiss2 with ⟨w', hw', hi⟩ | hd
-        · have := h0.b.cbPend id w' hw'
-          simp at this
-          rw [hi] at this
-          omega
-        · exact hd
-    refine ⟨hh.1, hdone, ?_⟩
+  · refine ⟨hh.1, hh.2, ?_⟩
     intro id' w' hm' e
-    exact h0.d.notDone id' w' hm' id (e ▸ hdone)
+    exact hwf2.d.notDone id' w' hm' id (e ▸ hh.2)
   · rw [hb] at hb'; cases hb'
+
+/-- **a panicking timeout callback** (recovered by the timer manager) aborts the
+scan: nothing else changes — in particular the ids the scan had not reached yet
+stay in the table with their (passed) deadlines and the timer stays armed, so the
+hypotheses of `tick_completes_due` hold for them again at the next scan; the
+panicking instance itself is already gone (`completed_not_pending`) and counts as
+completed once (`cb_at_most_once`). -/
+theorem panic_aborts_scan_only (s : State) (i : Nat) (rest : List Nat) (hb : s.base = .inTick i rest) :
+    step s .panic = { s with base := .idle, nest := 0 } ∧ free (step s .panic) = true := by
+  simp [step, panicScan, hb, free]
+
+/-- … and every scan that finds something due removes at least one entry before any
+callback can panic, so `k` overdue entries are gone after at most `k` scans. -/
+theorem scan_removes_one (M n0 : Nat) (ops : List Op) (hg : (run (init M n0) ops).collided = false)
+    (hfree : free (run (init M n0) ops) = true) (harm : (run (init M n0) ops).armed = true)
+    (id : Nat) (w : Wait) (hm : (id, w) ∈ (run (init M n0) ops).pending)
+    (hdue : w.deadline < (run (init M n0) ops).now) (order : List Nat) :
+    (step (run (init M n0) ops) (.tick order)).pending.length < (run (init M n0) ops).pending.length := by
+  have hwf := run_WF ops _ (init_WF M n0) hg
+  obtain ⟨_, hb⟩ := free_iff.1 hfree
+  have h0 := hwf.idle hb
+  have hne : (run (init M n0) ops).pending.isEmpty = false := by
+    cases hp : (run (init M n0) ops).pending with
+    | nil => rw [hp] at hm; cases hm
+    | cons _ _ => rfl
+  have hin : id ∈ pickOrder order (dueIds (run (init M n0) ops).now (run (init M n0) ops).pending) :=
+    (pickOrder_perm _ _).mem_iff.2 (mem_dueIds.2 ⟨w, hm, hdue⟩)
+  have hperm := pickOrder_perm order (dueIds (run (init M n0) ops).now (run (init M n0) ops).pending)
+  have : step (run (init M n0) ops) (.tick order) = tickLoop (run (init M n0) ops)
+      (pickOrder order (dueIds (run (init M n0) ops).now (run (init M n0) ops).pending)) := by
+    simp [step, tick, hfree, harm, hne]
+  rw [this]
+  cases hl : pickOrder order (dueIds (run (init M n0) ops).now (run (init M n0) ops).pending) with
+  | nil => rw [hl] at hin; cases hin
+  | cons r rest =>
+    have hr : r ∈ dueIds (run (init M n0) ops).now (run (init M n0) ops).pending :=
+      hperm.mem_iff.1 (by rw [hl]; exact List.mem_cons_self ..)
+    obtain ⟨w', hw', _⟩ := mem_dueIds.1 hr
+    exact tickLoop_cons_length_lt (find_some_of_mem h0.a.nodup hw')
 
 /-- the explicit id guard, issue by issue, keeps the `collided` flag down … -/
 theorem guard_implies_not_collided (M n0 : Nat) (ops : List Op) (h : Guarded (init M n0) ops) :
@@ -240,20 +255,23 @@ def demo : List Op :=
   [.issue true true true, .issue true true true, .issue true true true, .issue false true false,
    .response 2 (.ok (some 7)), .ret, .response 2 (.ok (some 8)),
    .response 3 (.err 5), .issue true true true, .ret,
-   .advance 31000, .tick [1, 4], .ret, .ret, .response 1 .bad, .tick []]
+   .advance 31000, .tick [1, 4], .panic, .advance 1000, .tick [], .ret, .response 1 .bad, .tick []]
 
 example : (run (init 100 0) demo).collided = false := by decide
 example : Guarded (init 100 0) demo := by decide
 example : (run (init 100 0) demo).log.reverse =
     [.issued 0 1 0, .sent 0 1, .armed, .issued 1 2 0, .sent 1 2, .issued 2 3 0, .sent 2 3, .sent 3 0,
-     .cb 1 2 (.reply (some 7)) 0, .done 1 2, .dropped 2,
-     .cb 2 3 (.remoteErr 5) 0, .issued 4 4 0, .sent 4 4, .done 2 3,
-     .cb 0 1 .timeout 31000, .done 0 1, .cb 4 4 .timeout 31000, .done 4 4, .dropped 1, .freed] := by decide
+     .done 1 2, .cb 1 2 (.reply (some 7)) 0, .dropped 2,
+     .done 2 3, .cb 2 3 (.remoteErr 5) 0, .issued 4 4 0, .sent 4 4,
+     .done 0 1, .cb 0 1 .timeout 31000, .done 4 4, .cb 4 4 .timeout 32000, .dropped 1, .freed] := by decide
 example : free (run (init 100 0) demo) = true ∧ (run (init 100 0) demo).pending = [] := by decide
-/-- hypotheses of `tick_completes_due` are satisfiable: after the first 11 ops two entries are due -/
+/-- hypotheses of `tick_completes_due` / `scan_removes_one` are satisfiable: after the first 11 ops two entries are due -/
 example : free (run (init 100 0) (demo.take 11)) = true ∧ (run (init 100 0) (demo.take 11)).armed = true ∧
     (keys (run (init 100 0) (demo.take 11)).pending) = [4, 1] ∧
     ∀ e ∈ (run (init 100 0) (demo.take 11)).pending, e.2.deadline < (run (init 100 0) (demo.take 11)).now := by decide
+/-- after the panic of instance 0's callback the other due entry is still there, the scan is over, the timer armed -/
+example : (keys (run (init 100 0) (demo.take 13)).pending) = [4] ∧ free (run (init 100 0) (demo.take 13)) = true ∧
+    (run (init 100 0) (demo.take 13)).armed = true := by decide
 /-- the wrap: with `M = 3` the fourth allocation re-uses id 1; harmless when 1 is free … -/
 example : (run (init 3 0) [.issue true true false, .response 1 (.ok none), .issue true true true,
     .issue true true true, .issue true true true]).collided = false := by decide
@@ -275,5 +293,23 @@ theorem d10_witness :
 theorem d10_fixed :
     (issue (init 2147483632 0) true false true).pending = [] ∧
     cbCount (issue (init 2147483632 0) true false true).log 0 = 1 := by decide
+
+/-! ### D18 (repaired): the previous `checkExpired` deleted the entry only after the
+callback had returned -/
+
+/-- a timeout callback that panics was invoked again by the next scan (and every
+second from then on), the entry still in the table: at-most-once failed on
+`[issue, advance 31000, tick, panic, advance 1000, tick]` -/
+theorem d18_witness :
+    let s1 := step (step (init 2147483632 0) (.issue true true true)) (.advance 31000)
+    let s2 := panicScan (tickD18 s1 [])
+    let s3 := tickD18 (step s2 (.advance 1000)) []
+    cbCount s3.log 0 = 2 ∧ s3.pending ≠ [] := by decide
+
+/-- the repaired code on the same history: one invocation, nothing left, timer freed by the next scan -/
+theorem d18_fixed :
+    (run (init 2147483632 0) [.issue true true true, .advance 31000, .tick [], .panic, .advance 1000, .tick []]).pending = [] ∧
+    cbCount (run (init 2147483632 0) [.issue true true true, .advance 31000, .tick [], .panic, .advance 1000, .tick []]).log 0 = 1 ∧
+    (run (init 2147483632 0) [.issue true true true, .advance 31000, .tick [], .panic, .advance 1000, .tick []]).armed = false := by decide
 
 end Cell2v.Props.C01
